@@ -210,6 +210,10 @@ def special_modules():
     S.append(("value_bitstring_default", mod_text("V12", "  Ta ::= SEQUENCE { fa BIT STRING DEFAULT '0101'B }")))
     S.append(("value_int_default_on_u64", mod_text("V13", "  Ta ::= SEQUENCE { fa INTEGER DEFAULT -5, fb INTEGER (-10..10) DEFAULT -5 }")))
     S.append(("value_null", mod_text("V14", "  Ta ::= SEQUENCE { fa NULL OPTIONAL, fb SEQUENCE OF NULL }")))
+    # named numbers on an extension addition (to_rust wraps the component in Option): fixed in /repo fd1f3f1
+    S.append(("named_number_on_extension_addition", mod_text("V18", "  Ta ::= SEQUENCE { a BOOLEAN, ..., b INTEGER { x(1) } (0..9) }")))
+    S.append(("named_number_on_extension_addition_set", mod_text("V19", "  Ta ::= SET { a BOOLEAN, ..., b INTEGER { x(1), y-z(9) } (0..9), c INTEGER { neg(-3) } (-5..5) }")))
+    S.append(("named_number_on_extension_additions_mixed", mod_text("V20", "  Ta ::= SEQUENCE { a INTEGER { first(0) } (0..255), ..., b INTEGER { big(70000) } (0..70000), c INTEGER { d(2) } (0..9) DEFAULT 2, e INTEGER { f(1) } (0..9) OPTIONAL }")))
     S.append(("value_default_on_choice_alt", mod_text("V15", "  Ta ::= SEQUENCE { fa Tb DEFAULT x : 5 }\n  Tb ::= CHOICE { x INTEGER }")))
     return S
 
@@ -510,7 +514,7 @@ class C09(Spec):
     theorems = ["C09_field_idents_legal", "C09_keywords_complete", "C09_keywords_complete_identifier", "C09_keywords_escaped", "C09_variant_idents_legal",
                 "C09_type_idents_legal", "C09_refuted_variant_Self", "C09_mangle_collision_refuted",
                 "C09_no_collision", "C09_field_name_no_trailing_underscore", "C09_consts_typed_partial", "C09_const_declared_type",
-                "C09_refuted_const_on_optional_type", "C09_refuted_const_negative_on_unsigned"]
+                "C09_const_on_extension_addition_fixed", "C09_refuted_const_negative_on_unsigned"]
     builds = [("default", "dev")]
     level_text = ("Partial by design (DESIGN.md section 8): 'rustc accepts' is checked by running the real rustc on the generated files "
                   "of a zoo of modules (harness/h_e2e, cargo check), the logic core (identifiers legal, keywords escaped, no collisions, "
@@ -741,6 +745,9 @@ def logic_oracle(names, consts):
                     fails.append(("const_literal_out_of_range", "const %s: %s = %s in `%s`" % (name, ty, val, scope)))
             else:
                 fails.append(("const_type_mismatch", "const %s: %s = %s in `%s`" % (name, ty, val, scope)))
+        elif ty.startswith("Option<") and re.fullmatch(r"-?[\d_]+", val):
+            # `pub const B_X: Option<u8> = 1;` (named number of an extension addition before /repo fd1f3f1)
+            fails.append(("const_type_mismatch", "const %s: %s = %s in `%s`" % (name, ty, val, scope)))
         elif ty == "bool" and val not in ("true", "false"):
             fails.append(("const_type_mismatch", "const %s: %s = %s in `%s`" % (name, ty, val, scope)))
         elif ty == "&'static str":
